@@ -73,6 +73,9 @@ func ruleC20(c *Check) {
 	c.panicInventory(fs, r)
 	c.mutateWhileIterating()
 	c.nilMapWrites(fs)
+	c.fractionValidators("C20.3")
+	// the callbacks of an owning module are called without a nil test: contexts are created only for modules that registered both
+	c.constructorRules("C20.3", map[string]bool{"callbacks": true})
 	// slicing of scanned store keys is justified above by the key grammar: decide the cut positions (K4) here as well, for every
 	// family but the two earnings families whose ambiguity is a recorded finding of C13 / C17 / C18 (D5, D13)
 	{
